@@ -82,9 +82,13 @@ Definition model_says (c : case) :=
   (r_out r, rev (r_trace r), map (fun pb => (fst pb, List.length (snd pb))) (files (r_fs r)), dirs (r_fs r)).
 
 (* size of the model's decision tree for a configuration: the number of
-   distinct fault plans (one decision in {Ok, Fail n, Die n} per reached call,
-   n from [lens] for writes), used to confirm the enumeration is exhaustive *)
-Fixpoint plans (fuel : nat) (lens : list nat) (fname pid : string) (chunks : list bytes) (s : fs)
+   distinct fault plans (one decision in {Ok, Fail n, Die n} per reached call;
+   for a write of m bytes n ranges over 0, 1, m/2, m-1 and, when [more], m and
+   m+7), used to confirm that the enumeration of the real code is exhaustive *)
+Definition lens_of (more : bool) (m : nat) : list nat :=
+  nodup Nat.eq_dec ([0; 1; Nat.div2 m; m - 1] ++ (if more then [m; m + 7] else [])).
+
+Fixpoint plans (fuel : nat) (more : bool) (fname pid : string) (chunks : list bytes) (s : fs)
          (plan : list decision) : nat :=
   match fuel with
   | 0 => 0
@@ -94,9 +98,11 @@ Fixpoint plans (fuel : nat) (lens : list nat) (fname pid : string) (chunks : lis
       (* positions reached beyond the forced prefix were decided Ok *)
       1 + fold_left (fun acc j =>
             let pre := plan ++ repeat Ok (j - List.length plan) in
-            let sc := match nth_error tr j with Some ev => ev_sc ev | None => SExists end in
-            let ns := match sc with SWrite => lens | _ => [0] end in
-            fold_left (fun acc n => acc + 1 (* Die n: a leaf *) + plans f lens fname pid chunks s (pre ++ [Fail n]))
+            let ns := match nth_error tr j with
+                      | Some ev => match ev_sc ev with SWrite => lens_of more (ev_n ev) | _ => [0] end
+                      | None => [0]
+                      end in
+            fold_left (fun acc n => acc + 1 (* Die n: a leaf *) + plans f more fname pid chunks s (pre ++ [Fail n]))
                       ns acc)
           (seq (List.length plan) (List.length tr - List.length plan)) 0
   end.
